@@ -14,7 +14,7 @@ NOT_BUILT = 'check not built yet in this round (planned in DESIGN.md §4); not c
 
 PROPS = {}
 # properties whose checks are built and registered in MANIFEST.json
-CLAIMED = ['C05', 'C06', 'C14', 'C15', 'C19', 'C21']
+CLAIMED = ['C01', 'C02', 'C03', 'C04', 'C05', 'C06', 'C07', 'C08', 'C09', 'C10', 'C11', 'C14', 'C15', 'C16', 'C17', 'C18', 'C19', 'C21', 'C22']
 
 
 def prop(pid, **kw):
@@ -352,7 +352,10 @@ def all_obligations():
               'output closed complete and the path cleared; close failure is fatal with J intact',
          functions=['output_regf_uninit', 'warnx', 'warn', 'failx'], flags=['--unwind', '14', '--unwinding-assertions'],
          expect=['output is closed only after ownership', 'permission bits are transferred', 'fatal path: tracked output path'], assumed=FS))
-    A(Ob(name='main.operand_loop', props=['C16', 'C17', 'C18', 'C07'], kind='bounded', bound='<= 2 operands (each with symbolic name <= 7 chars, symbolic stat data, every syscall outcome); ' + NB,
+    for om, dc in (('OM_REGF', 0), ('OM_REGF', 1), ('OM_STDOUT', 0), ('OM_STDOUT', 1), ('OM_DISCARD', 1)):
+      A(Ob(name=f'main.operand_loop.{om}.{"d" if dc else "z"}', props=['C16', 'C17', 'C18', 'C07'], kind='bounded', defines={'MAIN_OM': om, 'MAIN_DECOMPRESS': str(dc)},
+         bound='one loop iteration from an arbitrary between-operands state (any options, any earlier warning; operand name of 2 symbolic characters, symbolic stat data, every syscall outcome); '
+               'the end-of-operand assertions re-establish that state, so the operand count is not bounded; instance: output mode ' + om + (', decompressing' if dc else ', compressing'),
          harness='h_main.c', entry='h_main',
          what='main(): per operand cli..sti balanced on every path; work() runs with signals blocked and J; input unlinked only after the output is '
               'closed complete and only when writing files without -k; every fatal path has J; no option changes between operands; exit status 4 iff warned else 0',
